@@ -100,10 +100,12 @@ def run(ctx):
         for pol in ('ignore', 'stdout', 'stderr', 'panic'):
             for what, paths in (('a path that does not exist', [os.path.join(d, 'missing.json')]), ('a good file followed by a path that does not exist', [os.path.join(d, 'good.json'), os.path.join(d, 'missing.json')]),
                                 ('a dangling symbolic link inside a directory argument', [os.path.join(d, 'dir')])):
-                p = subprocess.run([lib.JAWK_BIN, '--on-error=' + pol, '--'] + paths, stdin=subprocess.DEVNULL, stdout=subprocess.PIPE, stderr=subprocess.PIPE, timeout=30)
+              for extra in ([], ['--take=1'], ['--take=0'], ['--skip=1', '--take=1', '--merge']):
+                # also when --take is satisfied before the unopenable path is reached: every FILE argument is input of the run
+                p = subprocess.run([lib.JAWK_BIN, '--on-error=' + pol] + extra + ['--'] + paths, stdin=subprocess.DEVNULL, stdout=subprocess.PIPE, stderr=subprocess.PIPE, timeout=30)
                 checked += 1
                 if p.returncode == 0 or not p.stderr.strip():
-                    violations.append({'property': 'C20', 'relation': 'input that cannot be opened (%s): non-zero status and a message on standard error' % what, 'args': ['--on-error=' + pol, '--'] + [os.path.relpath(x, d) for x in paths],
+                    violations.append({'property': 'C20', 'relation': 'input that cannot be opened (%s): non-zero status and a message on standard error' % what, 'args': ['--on-error=' + pol] + extra + ['--'] + [os.path.relpath(x, d) for x in paths],
                                        'stdin_hex': '', 'stdout_mode': 'pipe', 'unopenable': what, 'observed': 'exit %d, stderr %r' % (p.returncode, p.stderr[:120]), 'expected': 'non-zero, message'})
         # input that cannot be read: standard input is a directory (read fails with EISDIR) — a failed run under every policy:
         # non-zero status, the message on standard error, and nothing but rows on standard output
